@@ -14,7 +14,7 @@ TInit == Init /\ k \in 1..Len(Traces) /\ i = 1 /\ div = "" /\ reported = FALSE
 
 ToSet(s) == {s[j] : j \in DOMAIN s}
 
-Act(e) == CASE e.ev = "open"      -> Open(e.l, e.arg)
+Act(e) == CASE e.ev = "open"      -> IF e.how = "handle" THEN OpenH(e.l, e.arg) ELSE Open(e.l, e.arg)
             [] e.ev = "close"     -> Close(e.l)
             [] e.ev = "call"      -> Call(e.l, e.n)
             [] e.ev = "getfunc"   -> IF Mode = "inline" THEN IGetFunc(e.l, e.n, "getfunc")
